@@ -464,3 +464,147 @@ func vObserveSim(s *reportSim) {
 	vObserve("living", uint64(s.warriorLivingCount))
 	vObserve("cycle", uint64(s.cycleCount))
 }
+
+// ---------------------------------------------------------------------
+// fixed-shape recording reporter (paths stay mergeable)
+
+type vRecorder struct {
+	m        Address
+	nw       int
+	written  []bool // named in a write report
+	inc      []bool // named in an increment report
+	dec      []bool // named in a decrement report
+	read     []bool
+	badAddr  bool // some report carried an address >= M
+	badIndex bool // some report carried a warrior index outside [0, nw)
+	wrongWho bool // some task-level report carried an index other than expectWho
+	expectWho int
+	nPop, nPush, nTaskTerm, nWarTerm, nSpawn, nCycleStart, nCycleEnd, nReset Address
+	lastPop     Address
+	firstIsPop  bool // the first task-level report was a TaskPop
+	seenTask    bool
+	lastPush    Address
+}
+
+func vNewRecorder(m Address, nw int) *vRecorder {
+	return &vRecorder{m: m, nw: nw, written: make([]bool, m), inc: make([]bool, m), dec: make([]bool, m), read: make([]bool, m), expectWho: -1}
+}
+
+func (r *vRecorder) checkAddr(rep Report) bool {
+	if rep.Address >= r.m {
+		r.badAddr = true
+		return false
+	}
+	return true
+}
+
+func (r *vRecorder) Report(rep Report) {
+	switch rep.Type {
+	case SimReset:
+		r.nReset++
+		return
+	case CycleStart:
+		r.nCycleStart++
+		return
+	case CycleEnd:
+		r.nCycleEnd++
+		return
+	}
+	if vOr(rep.WarriorIndex < 0, rep.WarriorIndex >= r.nw) {
+		r.badIndex = true
+	}
+	if r.expectWho >= 0 {
+		if rep.WarriorIndex != r.expectWho {
+			r.wrongWho = true
+		}
+	}
+	if rep.Type != WarriorSpawn {
+		if !r.seenTask {
+			r.firstIsPop = rep.Type == WarriorTaskPop
+			r.seenTask = true
+		}
+	}
+	ok := r.checkAddr(rep)
+	switch rep.Type {
+	case WarriorSpawn:
+		r.nSpawn++
+	case WarriorTaskPop:
+		r.nPop++
+		r.lastPop = rep.Address
+	case WarriorTaskPush:
+		r.nPush++
+		r.lastPush = rep.Address
+	case WarriorTaskTerminate:
+		r.nTaskTerm++
+	case WarriorTerminate:
+		r.nWarTerm++
+	case WarriorRead:
+		if ok {
+			r.read[rep.Address] = true
+		}
+	case WarriorWrite:
+		if ok {
+			r.written[rep.Address] = true
+		}
+	case WarriorIncrement:
+		if ok {
+			r.inc[rep.Address] = true
+		}
+	case WarriorDecrement:
+		if ok {
+			r.dec[rep.Address] = true
+		}
+	}
+}
+
+// ---------------------------------------------------------------------
+// representation invariant between cycles (DESIGN.md section 4)
+
+// vHavocWarrior adds a warrior in an arbitrary state satisfying Inv.
+func vHavocWarrior(s *reportSim, P Address) *warrior {
+	w := &warrior{
+		data:  &WarriorData{Code: []Instruction{}},
+		sim:   s,
+		index: len(s.warriors),
+		pq:    newProcessQueue(P),
+	}
+	st := vU8("wstate")
+	vAssume(st <= 2)
+	w.state = WarriorState(st)
+	// alive => 1..P entries; otherwise the queue content is arbitrary (0..P)
+	vHavocQueue(w.pq, s.m, 0, P)
+	vAssume(vImplies(w.state == WarriorAlive, w.pq.length >= 1))
+	s.warriors = append(s.warriors, w)
+	s.warriorCount++
+	return w
+}
+
+// vAliveCount counts the warriors reporting alive (eagerly).
+func vAliveCount(s *reportSim) int {
+	n := 0
+	for _, w := range s.warriors {
+		n += vIteInt(w.state == WarriorAlive, 1, 0)
+	}
+	return n
+}
+
+// vAssertInv asserts the safety part of Inv after a step.
+func vAssertInv(s *reportSim) {
+	M := s.m
+	for i := Address(0); i < M; i++ {
+		c := s.mem[i]
+		vAssert("inv-fields-below-M", vAnd(c.A < M, c.B < M))
+		vAssert("inv-data-model", vAnd(vAnd(c.Op <= 16, c.OpMode <= 6), vAnd(c.AMode <= 7, c.BMode <= 7)))
+	}
+	for _, w := range s.warriors {
+		q := w.pq
+		vAssert("inv-queue-shape", vAnd(vAnd(q.length <= q.size, q.start < q.size), vAnd(q.end < q.size, q.end == (q.start+q.length)%q.size)))
+		vAssert("inv-alive-iff-tasks", vImplies(w.state == WarriorAlive, q.length >= 1))
+		for i := Address(0); i < q.size; i++ {
+			vAssert("inv-queued-pc-below-M", vImplies(i < q.length, q.queue[(q.start+i)%q.size] < M))
+		}
+	}
+	vAssert("inv-living-count", s.warriorLivingCount == vAliveCount(s))
+	vAssert("inv-cycle-limit", s.cycleCount <= s.maxCycles)
+	vAssert("inv-warrior-index", s.warriorIndex == 0)
+}
